@@ -153,6 +153,10 @@ class Effects:
                     if callee is None and fi.parent is None:
                         # nested function of fi
                         callee = self.funcs.get(f'{fi.module.name}.{fi.qualname}.{c.func.id}')
+                recv_expr = None
+                if callee is None and isinstance(c.func, ast.Attribute):
+                    callee = self._method(fi, c, n)
+                    recv_expr = c.func.value if callee is not None else None
                 if callee is None:
                     continue
                 for wr in self.summary[callee.key].values():
@@ -165,6 +169,8 @@ class Effects:
                     if root not in callee.params:
                         continue
                     arg = self._arg_for(callee, c, root)
+                    if recv_expr is not None and callee.params and root == callee.params[0]:
+                        arg = recv_expr
                     if arg is None:
                         # default used: the shared default object of the callee
                         if root in callee.defaults:
@@ -176,6 +182,35 @@ class Effects:
                         out.append(Write(p + rest, wr.op, n.line,
                                          via=(callee.name + ('>' + wr.via if wr.via else '')), fn=wr.fn))
         return out
+
+    def _method(self, fi, c: ast.Call, n):
+        """Resolve `recv.m(...)` to a method of a package class when the receiver's class is known
+        (annotation, constructor, or a module-level `NAME = Class(...)`)."""
+        kinds = self.w.kinds(fi)
+        recv = kinds.of(c.func.value, n)
+        rt = kinds.recv_type(recv)
+        if rt is None:
+            for l in recv.leaves():
+                if l.tag == 'global':
+                    rt = self._global_class(fi.module.name, l.name) or rt
+        if rt is None:
+            return None
+        for key, cand in self.funcs.items():
+            if cand.cls == rt and cand.name == c.func.attr and cand.parent is None:
+                return cand
+        return None
+
+    def _global_class(self, modname: str, name: str):
+        m = self.w.repo.modules.get(modname)
+        if m is None:
+            return None
+        for st in m.tree.body:
+            if isinstance(st, ast.Assign) and any(isinstance(t, ast.Name) and t.id == name for t in st.targets) and \
+                    isinstance(st.value, ast.Call) and isinstance(st.value.func, ast.Name):
+                cn = st.value.func.id
+                if any(cand.cls == cn for cand in self.funcs.values()):
+                    return cn
+        return None
 
     @staticmethod
     def _arg_for(callee, call: ast.Call, pname: str):
